@@ -210,7 +210,9 @@ EvBuild(e) ==
   IN IF ~Documented(r) \/ IsAtom(sm) \/ ~WellDefined(sm) \/ ~NoByRef(sm) THEN {"outside_domain"}
      \* (below a negating connective the library's wrappers of negated leaves may coincide - by their generated ids - with a sibling the
      \* caller wrote, e.g. XNor(b, AtMost(0, [b])): such objects do not validate, and generated ids are not modelled to that precision)
-     ELSE IF e.errs # <<>> /\ ~PlainClasses(r) THEN {"outside_domain"} ELSE
+     \* (nor where one definition occurs under two classes - a plain Any next to the "at least one" half of an Xor over the same members:
+     \* the pinned tree's validation rejects such models, an old observation, see C14-3 in 15.1)
+     ELSE IF e.errs # <<>> /\ (~PlainClasses(r) \/ \E x, y \in Comps(sm) : x.id = y.id /\ x.cls # y.cls) THEN {"outside_domain"} ELSE
      \* a recipe without negating connectives that denotes a well-defined model is built into an object that passes validation
      Fail("built_valid", e.errs = <<>>)
      \cup Fail("leaves_same", ~IsAtom(m) /\ LeafIds(m) = lids /\ BoolLeaves(m))
